@@ -141,59 +141,70 @@ def worker_batch(job: dict) -> dict:
         if any(e.note.startswith("ref-undefined") for e in expects.values()):
             stats["ref_undefined"] += 1
             continue
-        shape = scenario_shape(scn)
-        for k in range(n_sched):
-            strategy = prop.strategies[(i + k) % len(prop.strategies)]
-            sseed = f"{seed}:S:{k}"
-            try:
-                run, F, _ = execute(prop, scn, strategy=strategy, sseed=sseed, salt=k, expects=expects)
-            except Exception:
-                harness_errors.append(f"run seed {seed} k {k}: {traceback.format_exc()[-1200:]}")
-                break
-            stats["runs"] += 1
-            if job.get("emit_digests"):
-                digests[f"{seed}:{k}"] = run.digest() + ":" + ";".join(sorted("|".join(f["sig"]) for f in F))
-            stats["steps"] += run.sim.step
-            stats["choice_points"] += run.sim.n_choice_points
-            stats["executions"] += len(run.rt.pools)
-            stats["events"] += len(run.sim.events)
-            stats["virtual_time_ms"] += int(run.sim.now * 1000)
-            strat_mix[strategy] += 1
-            max_steps_ratio = max(max_steps_ratio, run.sim.step / run.step_cap)
-            max_branch = max(max_branch, run.rt.max_branch)
-            for kk, vv in run.rt.probes.items():
-                probes[kk] += vv
-            for w in run.fired:
-                faults_fired[f"{w[0]}:{w[1]}"] += 1
-            if run.status != "ok":
-                stats["status_" + run.status] += 1
-            nd, conc = node_level_digest(run)
-            key = shape + nd
-            distinct.add(key)
-            if nontrivial(prop, scn, run, conc):
-                distinct_nt.add(key if prop.nontrivial == "concurrent" else shape)
-            if len(samples) < 2 and (conc or k == n_sched - 1) and job["start"] == 0:
-                samples.append({"seed": seed, "strategy": strategy, "sources": render_program(scn["program"]),
-                                "clients": scn["clients"], "faults": scn.get("faults", []), "schedule": run.sim.schedule[:200],
-                                "events": trim_events(run.sim.events, 120),
-                                "outcomes": {str(kk): _outcome_json(vv) for kk, vv in run.outcomes.items()}})
-            if F and len(violations) < 40:
-                violations.append({"seed": seed, "i": i, "k": k, "strategy": strategy, "sseed": sseed, "salt": k,
-                                   "record": rec, "schedule": list(run.sim.schedule), "findings": F[:6],
-                                   "digest": run.digest(), "scenario": scn})
-            if F:
-                stats["runs_with_findings"] += 1
-                for f in F:
-                    other["|".join(f["sig"])] += 1
-            # determinism self-check: re-run the same schedule, digests must agree
-            if k == 0 and i % job.get("det_every", 40) == 0:
+        variants = [(scn, rec, expects)]
+        if prop.fault_enum and scn.get("n_variants", 1) > 1:
+            variants = []
+            for v in range(scn["n_variants"]):
                 try:
-                    run2, _, _ = execute(prop, scn, schedule=list(run.sim.schedule), salt=k, expects=expects)
-                    stats["det_checked"] += 1
-                    if run2.digest() != run.digest():
-                        nondet.append(f"seed {seed}: digest differs on identical schedule")
+                    scn_v, rec_v = gen_scenario(prop, seed, record=rec[:-1] + [v])
+                    variants.append((scn_v, rec_v, model.HistoryModel(scn_v).run_all()))
                 except Exception:
-                    harness_errors.append(f"det rerun seed {seed}: {traceback.format_exc()[-800:]}")
+                    harness_errors.append(f"variant {v} seed {seed}: {traceback.format_exc()[-800:]}")
+            stats["fault_variants"] += len(variants)
+        for vi, (scn, rec, expects) in enumerate(variants):
+          shape = scenario_shape(scn)
+          for k in range(n_sched):
+              strategy = prop.strategies[(i + k) % len(prop.strategies)]
+              sseed = f"{seed}:S:{k}"
+              try:
+                  run, F, _ = execute(prop, scn, strategy=strategy, sseed=sseed, salt=k, expects=expects)
+              except Exception:
+                  harness_errors.append(f"run seed {seed} k {k}: {traceback.format_exc()[-1200:]}")
+                  break
+              stats["runs"] += 1
+              if job.get("emit_digests"):
+                  digests[f"{seed}:{vi}:{k}"] = run.digest() + ":" + ";".join(sorted("|".join(f["sig"]) for f in F))
+              stats["steps"] += run.sim.step
+              stats["choice_points"] += run.sim.n_choice_points
+              stats["executions"] += len(run.rt.pools)
+              stats["events"] += len(run.sim.events)
+              stats["virtual_time_ms"] += int(run.sim.now * 1000)
+              strat_mix[strategy] += 1
+              max_steps_ratio = max(max_steps_ratio, run.sim.step / run.step_cap)
+              max_branch = max(max_branch, run.rt.max_branch)
+              for kk, vv in run.rt.probes.items():
+                  probes[kk] += vv
+              for w in run.fired:
+                  faults_fired[f"{w[0]}:{w[1]}"] += 1
+              if run.status != "ok":
+                  stats["status_" + run.status] += 1
+              nd, conc = node_level_digest(run)
+              key = shape + nd
+              distinct.add(key)
+              if nontrivial(prop, scn, run, conc):
+                  distinct_nt.add(key if prop.nontrivial == "concurrent" else shape)
+              if len(samples) < 2 and (conc or k == n_sched - 1) and job["start"] == 0:
+                  samples.append({"seed": seed, "strategy": strategy, "sources": render_program(scn["program"]),
+                                  "clients": scn["clients"], "faults": scn.get("faults", []), "schedule": run.sim.schedule[:200],
+                                  "events": trim_events(run.sim.events, 120),
+                                  "outcomes": {str(kk): _outcome_json(vv) for kk, vv in run.outcomes.items()}})
+              if F and len(violations) < 40:
+                  violations.append({"seed": seed, "i": i, "k": k, "strategy": strategy, "sseed": sseed, "salt": k,
+                                     "record": rec, "schedule": list(run.sim.schedule), "findings": F[:6],
+                                     "digest": run.digest(), "scenario": scn})
+              if F:
+                  stats["runs_with_findings"] += 1
+                  for f in F:
+                      other["|".join(f["sig"])] += 1
+              # determinism self-check: re-run the same schedule, digests must agree
+              if k == 0 and i % job.get("det_every", 40) == 0:
+                  try:
+                      run2, _, _ = execute(prop, scn, schedule=list(run.sim.schedule), salt=k, expects=expects)
+                      stats["det_checked"] += 1
+                      if run2.digest() != run.digest():
+                          nondet.append(f"seed {seed}: digest differs on identical schedule")
+                  except Exception:
+                      harness_errors.append(f"det rerun seed {seed}: {traceback.format_exc()[-800:]}")
     return {"prop": prop.pid, "job": job, "stats": dict(stats), "probes": dict(probes), "faults_fired": dict(faults_fired),
             "strategies": dict(strat_mix), "distinct": sorted(distinct), "distinct_nt": sorted(distinct_nt),
             "samples": samples, "violations": violations, "harness_errors": harness_errors[:10], "nondet": nondet[:10],
